@@ -8,7 +8,9 @@ from lib import cnat, clist
 FILLERS = ["plain words", "''italic'' and '''bold'''", "a [[link|text]] here", "{{a|x}} call", "<b>html</b> inline",
            "[http://x.y ext] link", "text with : colon and ; semi", "'''''both'''''", "a <span class=\"c\">s</span> b",
            "{{a|{{a|n}}}}", "[[Category:X]]", "word<!-- c -->word", "<nowiki>*#</nowiki> nw", "1 * 2 # 3", "x == y",
-           "e.g. -- dashes", "tail&amp;entity"]
+           "e.g. -- dashes", "tail&amp;entity",
+           # heading-shaped text inside a call or link (it is an argument, never a heading)
+           "{{a|==x==}}", "{{a|===x===}}", "[[l|==x==]]", "[[l|====x====]]", "{{a|=x=}} tail", "{{a|k===v==}}", "{{a|\n==x==\n}}"]
 
 
 LINE_OPENERS = ["<nowiki>*x</nowiki> ", "<nowiki>y</nowiki>", "<nowiki/>", "''i'' ", "'''b''' ", "[[l]] ", "{{a|x}} ", "<b>h</b> ",
@@ -21,7 +23,8 @@ TITLE_DECOR = [("''", "''"), ("'''", "'''"), ("[[l|", "]]"), ("", " {{a|x}}"), (
                ("x ", " y"), ("", " [http://x.y e]"), ("{{a}} ", ""), ("", " &amp;"), ("", " (1=2)"), ("<b>", "</b>")]
 
 
-def render(doc, rng):
+def render(doc, rng, extras=True):
+    """extras=False: every paragraph starts with plain text and ends in a blank line (the grammar of C19)"""
     out = []
     for b in doc:
         if b[0] == "H":
@@ -32,11 +35,11 @@ def render(doc, rng):
             out.append("%s%s%sH%d%s%s%s%s\n" % (eq, sp, pre, b[2], post, sp, eq, rng.choice(["", "", " ", "\t"])))
         elif b[0] == "T":
             # the paragraph may begin with any inline construct (every one of them has to close the open lists)
-            opener = rng.choice(LINE_OPENERS) if rng.random() < 0.4 else ""
-            if not opener and rng.random() < 0.15:
+            opener = rng.choice(LINE_OPENERS) if extras and rng.random() < 0.4 else ""
+            if extras and not opener and rng.random() < 0.15:
                 opener = " "                      # an indented (preformatted) line
             # most paragraphs end in a blank line, some are directly followed by the next block
-            out.append("%sP%d %s%s" % (opener, b[1], rng.choice(FILLERS), "\n\n" if rng.random() < 0.7 else "\n"))
+            out.append("%sP%d %s%s" % (opener, b[1], rng.choice(FILLERS), "\n\n" if not extras or rng.random() < 0.7 else "\n"))
         elif b[0] == "HR":
             out.append("----\n")
         else:
